@@ -33,7 +33,7 @@ RULE = ('case = one round (N clients, delay profile, shared or separate client e
         'associations overlap in time')
 ASSUMPTIONS = ['loopback TCP is reliable']
 REQUIRED = ['oracle.client-exact', 'oracle.server-conservation', 'oracle.healthy-undisturbed',
-            'oracle.msg-id-per-thread']
+            'oracle.msg-id-per-thread', 'oracle.non-interference', 'baton.switches']
 
 ROUNDS = {'quick': 24, 'thorough': 240}
 SIZES = {'quick': [16, 16, 4, 16, 24, 16, 8, 16], 'thorough': [4, 16, 16, 48, 16, 32, 8, 16]}
@@ -49,11 +49,22 @@ def plan(tier, seed):
     specs = [{'name': 'round', 'index': k, 'n': SIZES[tier][k % len(SIZES[tier])]}
              for k in range(ROUNDS[tier])]
     specs.append({'name': 'msg-id'})
+    nb = BATON_ROUNDS[tier]
+    for part in range(8):
+        specs.append({'name': 'baton', 'lo': part * nb // 8, 'hi': (part + 1) * nb // 8})
     return specs
+
+
+BATON_ROUNDS = {'quick': 400, 'thorough': 20000}
 
 
 def run_shard(spec, tier, seed):
     res = Result()
+    if spec['name'] == 'baton':
+        from . import c20baton
+        for k in range(spec['lo'], spec['hi']):
+            c20baton.run_round(res, {'baton': True, 'round': k, 'seed': seed})
+        return res
     if spec['name'] == 'msg-id':
         return msg_ids(res, seed, 32 if tier == 'quick' else 64)
     run_round(res, {'round': spec['index'], 'n': spec['n'], 'seed': seed})
@@ -62,6 +73,10 @@ def run_shard(spec, tier, seed):
 
 def replay(case):
     res = Result()
+    if case.get('baton'):
+        from . import c20baton
+        c20baton.run_round(res, case)
+        return res
     if case.get('msg_id'):
         return msg_ids(res, case.get('seed', 0), 32)
     run_round(res, case)
